@@ -1,0 +1,12 @@
+//go:build verif
+
+// Machine-checked contract for the indicator-sync program (read by /verif/govc; comment-only).
+
+package main
+
+// what the command line says is what Sync.Run gets (C12): workers, delay, the asset list, and a default start date
+// that lies `-days` calendar days before now (time.Time.AddDate). Flag values are not validated by the program: what
+// Sync.Run requires of them (distinct asset names, a delay that fits a Duration, ...) is assumed here and listed.
+//@ func main
+//@ attr callrequires = assumed
+//@ guarantees[C12] "default-start-date-is-days-before-now" arg(Sync_Run, 0, 2) == res(time_Now, 0) - 86400 * minusDays
